@@ -349,6 +349,7 @@ Proof. exact ex_run_done. Qed.
 Print Assumptions C17_chain_example.
 
 (** * Extension 4 — the two links the chain extension left open *)
+From Leaspy Require Api.PersonalizeChainExec.
 From Leaspy Require Import Api.PersonalizeChainLink Api.PersonalizeChainLinkProofs Api.PersonalizeChainLinkQRProofs.
 
 (** (b) The proposal scales of the generated chain ARE C19's.  For every variable [v] of a successful run (any carrier, decision
@@ -387,18 +388,38 @@ Print Assumptions C17_chain_simulation.
     injected inputs, and each of its sampler calls, injected, is a call of the real model ([step_ok]; C03's [ind_step] by
     [C17_chain_step_is_C03]) at the scale and inverse temperature the rational trace names. *)
 Theorem C17_chain_simulation_QR :
+  forall addQ mulQ, (forall x y, Q2R (addQ x y) = (Q2R x + Q2R y)%R) -> (forall x y, Q2R (mulQ x y) = (Q2R x * Q2R y)%R) ->
   forall decQ decR attQ regvQ regsumQ attR regvR regsumR,
     (forall u a b c d t, decQ u a b c d t = decR (Q2R u) (Q2R a) (Q2R b) (Q2R c) (Q2R d) (Q2R t)) ->
     (forall st, attR (smap Q2R st) = map Q2R (attQ st)) ->
     (forall v st, regvR v (smap Q2R st) = map Q2R (regvQ v st)) ->
     (forall st, regsumR (smap Q2R st) = map Q2R (regsumQ st)) ->
   forall scf acf nb random_order n_ind orders init scales tp o,
-    personalize_run Q Qplus Qmult (fun q => q) decQ attQ regvQ regsumQ scf acf nb random_order n_ind orders init scales tp = Done o ->
+    personalize_run Q addQ mulQ (fun q => q) decQ attQ regvQ regsumQ scf acf nb random_order n_ind orders init scales tp = Done o ->
     personalize_run R Rplus Rmult Q2R decR attR regvR regsumR scf acf nb random_order n_ind orders (smap Q2R init) scales (tape_map Q2R tp)
       = Done (out_map Q2R o) /\
     Forall (fun kl => Forall (fun r => step_ok R Rplus Rmult Q2R decR attR regvR (step_map Q2R r)) (snd kl)) (o_trace o).
 Proof. exact run_QR_steps. Qed.
 Print Assumptions C17_chain_simulation_QR.
+
+(** ... and on the very term T2 evaluates for every recorded personalisation ([run_case]: normalising rational arithmetic, decisions
+    and oracles looked up in the finite tables of what the implementation did): for any real decision rule taking the recorded
+    decisions on the recorded uniforms and any real oracles extending the tables, the re-execution is, injected, the real run. *)
+Theorem C17_chain_simulation_T2 :
+  forall tol (c : PersonalizeChainExec.chain_case) decR attR regvR regsumR,
+  (forall u a b cc d t, PersonalizeChainExec.decide_of (PersonalizeChainExec.cc_dec c) u a b cc d t = decR (Q2R u) (Q2R a) (Q2R b) (Q2R cc) (Q2R d) (Q2R t)) ->
+  (forall st, attR (smap Q2R st) = map Q2R (PersonalizeChainExec.att_of tol (PersonalizeChainExec.cc_table c) st)) ->
+  (forall v st, regvR v (smap Q2R st) = map Q2R (PersonalizeChainExec.regv_of tol (PersonalizeChainExec.cc_table c) v st)) ->
+  (forall st, regsumR (smap Q2R st) = map Q2R (PersonalizeChainExec.regsum_of tol (PersonalizeChainExec.cc_table c) st)) ->
+  forall o, PersonalizeChainExec.run_case tol c = Done o ->
+    personalize_run R Rplus Rmult Q2R decR attR regvR regsumR (PersonalizeChainExec.cc_scf c) (PersonalizeChainExec.cc_acf c)
+                    (PersonalizeChainExec.cc_nb c) (PersonalizeChainExec.cc_random c) (length (PersonalizeChainExec.cc_ids c))
+                    (PersonalizeChainExec.cc_orders c) (smap Q2R (PersonalizeChainExec.cc_init c)) (PersonalizeChainExec.cc_scales c)
+                    (tape_map Q2R (Build_tape (PersonalizeChainExec.cc_normals c) (PersonalizeChainExec.cc_uniforms c)))
+      = Done (out_map Q2R o) /\
+    Forall (fun kl => Forall (fun r => step_ok R Rplus Rmult Q2R decR attR regvR (step_map Q2R r)) (snd kl)) (o_trace o).
+Proof. exact run_case_real. Qed.
+Print Assumptions C17_chain_simulation_T2.
 
 (** Non-vacuity: the example run computed over Q, its real counterpart (real oracles = sums over R, real decision = the same
     inequality decided on R), all six calls are real steps; some proposals accepted, some refused; and the scales of variable 0 along
